@@ -779,3 +779,102 @@ func init() {
 		}
 	}
 }
+
+func init() {
+	Registry["WSIB"] = func(c *Ctx, r *Report) {
+		pa, pb := c.Pkg("avc"), c.Pkg("hevc")
+		for _, name := range pa.Types.Scope().Names() {
+			fa, ok := pa.Types.Scope().Lookup(name).(*types.Func)
+			if !ok {
+				continue
+			}
+			fb, ok := pb.Types.Scope().Lookup(name).(*types.Func)
+			if !ok {
+				continue
+			}
+			sa, ok1 := normalizedBody(c, fa, map[string]string{"avc": "hevc"}, nil)
+			sb, ok2 := normalizedBody(c, fb, nil, nil)
+			if !ok1 || !ok2 {
+				continue
+			}
+			fmt.Printf("%-45s equal=%v len=%d/%d\n", name, sa == sb, len(sa), len(sb))
+		}
+	}
+}
+
+func init() {
+	Registry["WWRITES"] = func(c *Ctx, r *Report) {
+		cnt := map[string]int{}
+		for _, f := range c.RepoFuncs(IsLib) {
+			if f.Synthetic != "" {
+				continue
+			}
+			for _, b := range f.Blocks {
+				for _, ins := range b.Instrs {
+					var dst ssa.Value
+					switch x := ins.(type) {
+					case *ssa.Call:
+						if bi, ok := x.Call.Value.(*ssa.Builtin); ok && bi.Name() == "copy" {
+							dst = x.Call.Args[0]
+						}
+					case *ssa.Store:
+						if ia, ok := x.Addr.(*ssa.IndexAddr); ok {
+							dst = ia.X
+						}
+					}
+					if dst == nil {
+						continue
+					}
+					if fld := storageField(dst, 0); fld != "" {
+						cnt[SSAFuncName(f)+" -> "+fld]++
+					}
+				}
+			}
+		}
+		var ks []string
+		for k := range cnt {
+			ks = append(ks, k)
+		}
+		sort.Strings(ks)
+		for _, k := range ks {
+			fmt.Println(cnt[k], k)
+		}
+	}
+}
+
+func storageField(v ssa.Value, depth int) string {
+	if depth > 8 {
+		return ""
+	}
+	switch x := v.(type) {
+	case *ssa.Slice:
+		return storageField(x.X, depth+1)
+	case *ssa.Phi:
+		for _, e := range x.Edges {
+			if s := storageField(e, depth+1); s != "" {
+				return s
+			}
+		}
+	case *ssa.UnOp:
+		if x.Op != token.MUL {
+			return ""
+		}
+		switch a := x.X.(type) {
+		case *ssa.FieldAddr:
+			if fv := fieldVar(a.X.Type(), a.Field); fv != nil {
+				if _, ok := fv.Type().Underlying().(*types.Slice); ok {
+					return typeName(a.X.Type()) + "." + fv.Name()
+				}
+			}
+		case *ssa.Alloc:
+			for _, ref := range *a.Referrers() {
+				if st, ok := ref.(*ssa.Store); ok && st.Addr == ssa.Value(a) {
+					if s := storageField(st.Val, depth+1); s != "" {
+						return s
+					}
+				}
+			}
+		}
+	}
+	return ""
+}
